@@ -204,7 +204,7 @@ func c06AfterHand(p *Play, hd *h.Hand) {
 			}
 		}
 		for i, st := range cc.Opts.Players {
-			pi := open.FindPlayerIdx(roster[i])
+			pi := h.PlayerIdx(open, roster[i])
 			if pi < 0 {
 				continue
 			}
@@ -229,7 +229,7 @@ func c06AfterHand(p *Play, hd *h.Hand) {
 	// the labels published at open stay put for the whole hand
 	for _, e := range hd.Snaps {
 		for _, ps := range e.T.State.PlayerStates {
-			pi := open.FindPlayerIdx(ps.PlayerID)
+			pi := h.PlayerIdx(open, ps.PlayerID)
 			if pi < 0 {
 				continue
 			}
